@@ -34,7 +34,8 @@ pub fn eval(ctx: &Ctx, c: &Case) {
     let sig = hex::decode(&c.sig).unwrap();
     let id_bytes = c.id.as_ref().map(|s| s.as_bytes().to_vec()).unwrap_or_else(|| sm2::DEFAULT_ID.to_vec());
     let pk_ref = sm2::decode_point(&pkb).expect("case public key is valid");
-    let accept = sm2::verify_msg(&pk_ref, &id_bytes, &msg, &sig);
+    // an ID longer than 8191 bytes has no 16-bit ENTL: nothing verifies under it
+    let accept = id_bytes.len() <= 8191 && sm2::verify_msg(&pk_ref, &id_bytes, &msg, &sig);
     ctx.trace();
     let pk = match &c.lambda {
         None => public_key(&pk_ref),
@@ -70,12 +71,12 @@ pub fn run(ctx: &Arc<Ctx>) {
     refmodels::selftest::run(&["sm3", "sm2"]).unwrap_or_else(|e| ctx.machinery_error(format!("reference self-test failed: {}", e)));
     let n = sm2::params().n.clone();
     let p = sm2::params().p.clone();
-    ctx.set_rule("for each base signature (quick 12, thorough 60: keys x nonces x IDs x messages from the C03 alphabets, made by the reference signer): all 512 single-bit flips of r||s; r,s substituted by {0,1,n-1,n,n+1,2^256-1}, s=n-r, swapped; (r+delta, s') completed with the private key so that the verification point is unchanged, delta in {+-1, +-(p-n), +-(2^256-n), +-(2^256-p)}; the public key held as a Jacobian key object (Z in {2, p-1, seeded}); message bit flipped / byte appended / truncated; ID changed; key replaced by another key and by -P; every signature length 0..=130 as prefix/extension and constant fills; plus the product RxS of a 12-element boundary alphabet; pre-searched signatures with r or s below 2^224 and their r+n / s+n aliases. Oracle: the reference verifier (and 'exactly 64 bytes'); library must return Err whenever it rejects — never Ok, never a panic — and Ok when it accepts.");
+    ctx.set_rule("for each base signature (quick 12, thorough 60: keys x nonces x IDs x messages from the C03 alphabets, made by the reference signer): all 512 single-bit flips of r||s; r,s substituted by {0,1,n-1,n,n+1,2^256-1}, s=n-r, swapped; (r+delta, s') completed with the private key so that the verification point is unchanged, delta in {+-1, +-(p-n), +-(2^256-n), +-(2^256-p)}; the public key held as a Jacobian key object (Z in {2, p-1, seeded}); message bit flipped / byte appended / truncated; ID changed (also to normalisation-equivalent spellings: trailing / leading white space, line end, NUL, case; and to IDs longer than 8191 bytes sharing the signer's prefix); key replaced by another key and by -P; every signature length 0..=130 as prefix/extension and constant fills; plus the product RxS of a 12-element boundary alphabet; pre-searched messages whose digest e is >= n; pre-searched signatures with r or s below 2^224 and their r+n / s+n aliases. Oracle: the reference verifier (and 'exactly 64 bytes'); library must return Err whenever it rejects — never Ok, never a panic — and Ok when it accepts.");
     let ds = scalar_alphabet(&n, ctx.seed, "c04d", 2);
     let ks = scalar_alphabet(&n, ctx.seed, "c04k", 1);
     let nbase = ctx.tier.pick(12usize, 60);
     // IDs are byte strings to the standard; the API takes &str, so non-ASCII IDs are multi-byte UTF-8
-    let ids: Vec<Option<String>> = vec![None, Some("alice@example.com".into()), Some("".into()), Some("用户甲".into())];
+    let ids: Vec<Option<String>> = vec![None, Some("alice@example.com".into()), Some("".into()), Some("用户甲".into()), Some("alice@example.com\n".into()), Some("Alice@Example.com ".into())];
     let mut cases: Vec<Case> = Vec::new();
     let mut g = SplitMix::new(ctx.seed, "c04");
     let other_key = sm2::g_mul(&g.nonzero_below(&(&n - 1u32)));
@@ -188,6 +189,31 @@ pub fn run(ctx: &Arc<Ctx>) {
         if id.is_some() {
             cases.push(mk(valid.clone(), &msg, &None, &pkh, "id-default-instead"));
         }
+        // IDs that only a normalising verifier would identify with the signer's ID
+        if let Some(s0) = &id {
+            for v in [format!("{} ", s0), format!("{}\n", s0), format!(" {}", s0), s0.to_uppercase(), s0.to_lowercase(), s0.trim_end().to_string(), format!("{}\0", s0)] {
+                if v != *s0 {
+                    cases.push(mk(valid.clone(), &msg, &Some(v), &pkh, "id-changed/normalisation-equivalent"));
+                }
+            }
+        } else {
+            for v in ["1234567812345678 ", "1234567812345678\n", ""] {
+                cases.push(mk(valid.clone(), &msg, &Some(v.to_string()), &pkh, "id-changed/normalisation-equivalent"));
+            }
+        }
+        // an ID of more than 8191 bytes has no ENTL: never accepted, whatever prefix it shares with the signer's ID
+        if b < 2 {
+            let long_id: String = format!("{}{}", id.clone().unwrap_or_default(), "x".repeat(8192));
+            cases.push(mk(valid.clone(), &msg, &Some(long_id), &pkh, "id-over-8191-bytes"));
+            // the longest legal ID, and the same ID with one more byte
+            let id_max: String = "m".repeat(8191);
+            let e2 = sm2::digest_e(id_max.as_bytes(), &pk, &msg);
+            if let Some((r2, s2)) = sm2::sign_with_k(d, &e2, k) {
+                cases.push(mk(sig_bytes(&r2, &s2), &msg, &Some(id_max.clone()), &pkh, "valid"));
+                cases.push(mk(sig_bytes(&r2, &s2), &msg, &Some(format!("{}y", id_max)), &pkh, "id-over-8191-bytes"));
+                cases.push(mk(sig_bytes(&r2, &s2), &msg, &Some(format!("{}{}", id_max, "z".repeat(8191))), &pkh, "id-over-8191-bytes"));
+            }
+        }
         cases.push(mk(valid.clone(), &msg, &id, &hex::encode(sm2::encode_point(&other_key, false)), "other-key"));
         cases.push(mk(valid.clone(), &msg, &id, &hex::encode(sm2::encode_point(&sm2::params().curve.neg(&pk), false)), "negated-key"));
         // every length 0..=130
@@ -244,6 +270,41 @@ pub fn run(ctx: &Arc<Ctx>) {
         }
     }
     ctx.cov("small_component_signatures", serde_json::json!(small.len()));
+    // pre-searched messages whose digest e is >= n: a reference-made signature must be accepted, its neighbours refused
+    {
+        let big: Vec<Value> = std::fs::read_to_string(format!("{}/corpus/sm2_big_e.json", VERIF_ROOT)).ok().and_then(|t| serde_json::from_str::<Value>(&t).ok()).and_then(|v| v.as_array().cloned()).unwrap_or_default();
+        let mut ok = 0;
+        for e in &big {
+            let d = hb(e["d"].as_str().unwrap_or("0"));
+            let msg = hex::decode(e["msg"].as_str().unwrap_or("")).unwrap_or_default();
+            let id = e["id"].as_str().map(|s| s.to_string());
+            let idb = id.as_ref().map(|s| s.as_bytes().to_vec()).unwrap_or_else(|| sm2::DEFAULT_ID.to_vec());
+            let pk = sm2::g_mul(&d);
+            let ee = sm2::digest_e(&idb, &pk, &msg);
+            if ee < n {
+                continue;
+            }
+            ok += 1;
+            let Some((r, s)) = sm2::sign_with_k(&d, &ee, &ks[4].1) else { continue };
+            let pkh = hex::encode(sm2::encode_point(&pk, false));
+            let mk = |sig: String, m: &[u8], label: &str| Case { pk: pkh.clone(), id: id.clone(), msg: hex::encode(m), sig, label: label.to_string(), lambda: None };
+            cases.push(mk(sig_bytes(&r, &s), &msg, "valid"));
+            // the signature an implementation makes that takes -(e mod n) or the unreduced e wrongly: r shifted by the difference
+            for (dn2, delta) in [("-2e", (&n * 2u32 - (&ee % &n) * 2u32) % &n), ("2^256-n", ((BigUint::one() << 256usize) - &n) % &n)] {
+                let r2 = (&r + &delta) % &n;
+                if !r2.is_zero() && r2 != r {
+                    cases.push(mk(sig_bytes(&r2, &s), &msg, &format!("e>=n/r-shifted-by-{}", dn2)));
+                }
+            }
+            let mut m2 = msg.clone();
+            m2[0] ^= 1;
+            cases.push(mk(sig_bytes(&r, &s), &m2, "msg-bitflip"));
+        }
+        ctx.cov("messages_with_digest_e_ge_n", serde_json::json!(ok));
+        if ok == 0 {
+            ctx.machinery_error("corpus/sm2_big_e.json missing or not reproduced by the reference");
+        }
+    }
     // call sequences over related inputs on one thread: two keys x two IDs, valid and altered, in every order
     {
         let mut items: Vec<Case> = Vec::new();
@@ -333,4 +394,45 @@ pub fn search_small_components() {
             }
         }
     });
+}
+
+/// `gmverif tool search-e`: messages whose digest e = SM3(ZA || M) is >= n (first 32 bits all ones), for the Annex key
+/// under the default ID and for a second key under another ID. Writes corpus/sm2_big_e.json (re-validated on use).
+pub fn search_big_e() {
+    use rayon::prelude::*;
+    use std::sync::atomic::{AtomicU64, Ordering};
+    let pr = sm2::params();
+    let n = pr.n.clone();
+    let out = std::sync::Mutex::new(Vec::<Value>::new());
+    for (dhex, id) in [(crate::alpha::ANNEX_D, None::<&str>), ("785129917D45A9EA5437A59356B82338EAADDA6CEB199088F14AE10DEFA229B5", Some("bob456@qq.com"))] {
+        let d = hb(dhex);
+        let pk = sm2::g_mul(&d);
+        let idb = id.map(|s| s.as_bytes().to_vec()).unwrap_or_else(|| sm2::DEFAULT_ID.to_vec());
+        let za = sm2::za(&idb, &pk);
+        let found = AtomicU64::new(0);
+        let chunk: u64 = 1 << 22;
+        (0..(1u64 << 12)).into_par_iter().for_each(|c| {
+            if found.load(Ordering::Relaxed) >= 2 {
+                return;
+            }
+            let mut base = refmodels::sm3::Sm3::new();
+            base.update(&za);
+            for i in 0..chunk {
+                let ctr = c * chunk + i;
+                let msg = format!("invoice #{}", ctr);
+                let mut h = base.clone();
+                h.update(msg.as_bytes());
+                let dg = h.finish();
+                if dg[0] == 0xff && dg[1] == 0xff && dg[2] == 0xff && dg[3] == 0xff {
+                    let e = refmodels::util::from_be(&dg);
+                    if e >= n && found.fetch_add(1, Ordering::Relaxed) < 2 {
+                        eprintln!("found e >= n at {} for id {:?}", ctr, id);
+                        out.lock().unwrap().push(serde_json::json!({"d": dhex, "id": id, "msg": hex::encode(msg.as_bytes()), "e": hex::encode(dg)}));
+                        let _ = std::fs::write(format!("{}/corpus/sm2_big_e.json", VERIF_ROOT), serde_json::to_string_pretty(&*out.lock().unwrap()).unwrap());
+                    }
+                }
+            }
+        });
+    }
+    eprintln!("done: {} entries", out.lock().unwrap().len());
 }
